@@ -118,6 +118,14 @@ def benign_md():
                                                sum(1 for k in fr if k.endswith(suf))) for lab, suf in (('medium', '-c1'), ('larger', '-c2'))),
                        half('C01', 'C10'), half('C11', 'C20')))
         out.append('\nFirst-run alarms of round 3: ' + '; '.join('%s (%s)' % (k, v['alarms'][0][:60].replace('|', '/')) for k, v in sorted(fr.items()) if v['status'] != 'silent') + '.')
+    f4 = '/verif/benign/ROUND4_FIRST.json'
+    if os.path.exists(f4):
+        fr = json.load(open(f4))
+        n4 = len(fr)
+        a4 = sum(1 for v in fr.values() if v['status'] != 'silent')
+        out.append('\nRound 4 (`Cxx-d1`, `-d2`: two medium refactorings per property, REQUIRED to touch the functions that the rules added after seed round 4 inspect -- '
+                   'the youngest and least generalised rules), FIRST run: %d changes, %d silent, %d false alarms (%d%%).' % (n4, n4 - a4, a4, round(100.0 * a4 / max(n4, 1))))
+        out.append('\nFirst-run alarms of round 4: ' + '; '.join('%s (%s)' % (k, v['alarms'][0][:60].replace('|', '/')) for k, v in sorted(fr.items()) if v['status'] != 'silent') + '.')
     return '\n'.join(out)
 
 
